@@ -41,6 +41,7 @@ func scenarioC08(r *Run) {
 		case fRecvErr, fRecvDataErr:
 			w.causes = append(w.causes, stopCause{Kind: "error", Begin: w.seq(), End: -1})
 		case fRecvDataEOF:
+			w.eofFaultSeq = w.seq()
 			w.causes = append(w.causes, stopCause{Kind: "closed", Begin: w.seq(), End: -1})
 		case fSendErrLost, fSendErrAfter:
 			// a failed Send is a channel failure too; whether it ends the server
@@ -54,6 +55,7 @@ func scenarioC08(r *Run) {
 			w.stopSeq = w.seq()
 		}
 	}
+	w.sEnd.CloseErr = g.Chance("closeerr", 0.12) // Close reports an error: the stop cause decides the status all the same
 	s := r.Sample.(map[string]any)
 	s["close_after"], s["recv_faults"], s["send_faults"] = w.closeAfter, fmt.Sprint(w.sEnd.FaultRecvAt), fmt.Sprint(w.sEnd.FaultSendAt)
 	active0 := serversActive()
@@ -184,7 +186,21 @@ func (w *srvWorld) checkC08(active0 string) {
 		if msg.Arrive < 0 || msg.Garbage || msg.Empty {
 			continue
 		}
-		proven := false
+		// a record delivered together with io.EOF is received before the end of
+		// the stream it announces: the server treats it as a final record
+		proven := msg.WithEOF
+		settled := 1 << 30 // first quiescent point after the arrival: the reader has dealt with the record by then
+		for _, q := range w.qpoints {
+			if q > msg.Arrive {
+				settled = q
+				break
+			}
+		}
+		for _, c := range w.causes {
+			if c.Begin < settled && !c.Optional && c.Begin != w.eofFaultSeq {
+				proven = false // another stop cause came first, or raced with the reader
+			}
+		}
 		for seq := msg.Arrive + 1; seq < len(r.Sim.Events) && seq < fc; seq++ {
 			if e := r.Sim.Events[seq]; e.Kind == "ch.recv" && e.Tag == "srv" {
 				proven = true
@@ -249,6 +265,13 @@ func (w *srvWorld) restartProbe(active0 string, sEnd, pEnd *End) {
 	var got []string
 	var st *jrpc2.ServerStatus
 	panicked := ""
+	// the second life ends like the first may: peer close, Stop() or a channel
+	// failure, with a call in flight whose handler waits for its context
+	endKind := r.Gen.Int("secondlifeend", 3)
+	w.releaseAll = false
+	held := &member{Msg: 9999, Kind: mCall, ID: "424242", Tag: "probe2", Enter: -1, Exit: -1, Logged: -1}
+	held.Script = hscript{Hold: true, RespectCtx: true, Outcome: 2}
+	w.byTag[held.Tag] = held
 	r.Sim.Spawn("r-main", func() {
 		defer func() {
 			if p := recover(); p != nil {
@@ -259,6 +282,7 @@ func (w *srvWorld) restartProbe(active0 string, sEnd, pEnd *End) {
 			w.srv.Start(sEnd)
 		}
 	})
+	peerMayClose := false
 	r.Sim.Spawn("r-peer", func() {
 		rt.Yield("probe:start")
 		pEnd.Send([]byte(fmt.Sprintf(`{"jsonrpc":"2.0","id":%s,"method":"h","params":{"t":"probe"}}`, id)))
@@ -266,6 +290,8 @@ func (w *srvWorld) restartProbe(active0 string, sEnd, pEnd *End) {
 		if err == nil {
 			got = append(got, string(b))
 		}
+		pEnd.Send([]byte(fmt.Sprintf(`{"jsonrpc":"2.0","id":%s,"method":"h","params":{"t":"probe2"}}`, held.ID)))
+		rt.Block("probe:closegate", func() bool { return peerMayClose })
 		pEnd.Close()
 		for {
 			b, err := pEnd.Recv()
@@ -282,13 +308,6 @@ func (w *srvWorld) restartProbe(active0 string, sEnd, pEnd *End) {
 		r.Fail("restart-failed", "Start on a fresh channel after WaitStatus returned panicked: %s", panicked)
 		return
 	}
-	r.Sim.Spawn("r-wait", func() {
-		s := w.srv.WaitStatus()
-		st = &s
-	})
-	if !r.RunQ() {
-		return
-	}
 	want := fmt.Sprintf(`{"jsonrpc":"2.0","id":%s,"result":{"tag":"probe"}}`, id)
 	if len(got) != 1 || compactJSON(got[0]) != compactJSON(want) {
 		cls := "restart-failed"
@@ -298,13 +317,48 @@ func (w *srvWorld) restartProbe(active0 string, sEnd, pEnd *End) {
 		r.Fail(cls, "restarted server: probe call with id %s got %q (server sent %q), want exactly %s", id, got, out, want)
 		return
 	}
-	if st == nil {
-		r.Fail("restart-failed", "restarted server: WaitStatus did not return after the peer closed")
+	if !held.Holding {
+		r.Fail("restart-failed", "restarted server: a second call was not handed to its handler (entered=%v)", held.Enter >= 0)
 		return
 	}
-	if !st.Closed || st.Stopped || st.Err != nil {
-		r.Fail("restart-residue", "restarted server: status %+v after the peer closed, want Closed", *st)
+	switch endKind {
+	case 0:
+		peerMayClose = true
+	case 1:
+		r.Sim.Spawn("r-stop", func() { w.srv.Stop(); peerMayClose = true })
+	case 2:
+		sEnd.Kick()
+		r.Sim.Spawn("r-fail", func() { rt.Yield("probe:fail"); peerMayClose = true })
+	}
+	r.Sim.Spawn("r-wait", func() {
+		s := w.srv.WaitStatus()
+		st = &s
+	})
+	if !r.RunQ() {
 		return
+	}
+	if st == nil {
+		r.Fail("restart-failed", "restarted server: WaitStatus did not return after its second connection ended (%s)", []string{"peer closed", "Stop() called", "channel failed"}[endKind])
+		return
+	}
+	if held.Exit < 0 || len(held.CtxObs) == 0 || held.CtxObs[len(held.CtxObs)-1].Err == "" {
+		r.Fail("restart-failed", "restarted server: the call in flight when the second connection ended did not see its context cancelled (exit #%d)", held.Exit)
+		return
+	}
+	okStatus := (endKind == 0 && st.Closed && !st.Stopped && st.Err == nil) ||
+		(endKind == 1 && st.Stopped && !st.Closed && st.Err == nil) ||
+		(endKind == 2 && !st.Stopped && !st.Closed && errors.Is(st.Err, ErrInjected))
+	if !okStatus {
+		r.Fail("restart-residue", "restarted server: status %+v after its connection ended by %s", *st, []string{"peer close (want Closed)", "Stop() (want Stopped)", "a channel failure (want that error)"}[endKind])
+		return
+	}
+	for _, rec := range got[1:] {
+		o := &outRec{Raw: rec}
+		parseOut(o)
+		if o.BadJSON || len(o.Objs) != 1 || o.Objs[0].ID != held.ID {
+			r.Fail("restart-residue", "restarted server sent a record that answers neither probe call: %s", rec)
+			return
+		}
 	}
 	if a := serversActive(); a != active0 {
 		r.Fail("servers-active-delta", "servers_active is %s after the restarted server exited, was %s", a, active0)
